@@ -272,6 +272,90 @@ fn own_cell(kind: Kind, variant: usize, e: &mut Emit) {
     e.line("done");
 }
 
+// ---------------------------------------------------------------------------------------------
+// Schedules: the owners of a self-pipe go away (action removed, instance and last handle dropped)
+// while the signal keeps being delivered, from another thread and nested at every operation boundary
+// of the teardown. The engine-wide monitor judges every wake attempt: its descriptor must be open.
+
+mod sched_part {
+    use crate::props::reg::{fresh_registry, Disp, S1, S2};
+    use crate::sched::{self, Opts, Scenario, ThreadSpec};
+    use signal_hook::iterator::{Handle, Signals};
+    use std::sync::{Arc, Mutex};
+
+    pub struct St {
+        inst: Mutex<Option<Signals>>,
+        handle: Mutex<Option<Handle>>,
+        pipe_id: Mutex<Option<signal_hook::SigId>>,
+        read_end: i32,
+    }
+
+    pub fn build(name: &'static str, handle_first: bool) -> Scenario<Arc<St>> {
+        let setup = || {
+            fresh_registry(&[(S1, Disp::Ignore), (S2, Disp::Ignore)]);
+            let s = Signals::new(&[S1]).expect("new");
+            let h = s.handle();
+            let mut fds = [0i32; 2];
+            unsafe {
+                libc::pipe(fds.as_mut_ptr());
+            }
+            let id = signal_hook::low_level::pipe::register_raw(S1, fds[1]).expect("register_raw");
+            Arc::new(St { inst: Mutex::new(Some(s)), handle: Mutex::new(Some(h)), pipe_id: Mutex::new(Some(id)), read_end: fds[0] })
+        };
+        let m = ThreadSpec {
+            name: "M",
+            body: Box::new(move |s: &Arc<St>| {
+                let id = s.pipe_id.lock().unwrap().take().unwrap();
+                signal_hook::low_level::unregister(id);
+                let i = s.inst.lock().unwrap().take();
+                let h = s.handle.lock().unwrap().take();
+                if handle_first {
+                    drop(h);
+                    drop(i);
+                } else {
+                    drop(i);
+                    drop(h);
+                }
+            }),
+            nest_signals: vec![S1],
+            max_nest: 2,
+        };
+        let d = ThreadSpec {
+            name: "D",
+            body: Box::new(move |_s: &Arc<St>| {
+                sched::raise(S1);
+                sched::raise(S1);
+            }),
+            nest_signals: vec![],
+            max_nest: 0,
+        };
+        Scenario {
+            name: name.to_string(),
+            opts: Opts { stale_reads: false, stale_depth: 2, max_spurious: 0, horizon: 20_000, log_ops: false, log_handler_ops: false, reduce: true, no_discipline: false, nest_value_t1: 0, post_points: false, no_race_check: false, start_points: false },
+            signals: vec![S1, S2],
+            setup: Box::new(setup),
+            threads: vec![m, d],
+            finish: Box::new(|s, e| {
+                if !e.panics.is_empty() {
+                    return Err(format!("C13: a thread panicked: {:?}", e.panics));
+                }
+                let before = e.log.iter().filter(|x| x.tag == "wake").count();
+                sched::setup_raise(S1);
+                let e = sched::exec();
+                let w = e.log.iter().filter(|x| x.tag == "wake").count() - before;
+                if w != 0 {
+                    return Err(format!("C13: after every owner is gone a delivery still makes {} wake attempts", w));
+                }
+                unsafe {
+                    libc::close(s.read_end);
+                }
+                Ok(e.log.iter().filter(|x| x.tag == "wake").count() as u64)
+            }),
+            monitor: None,
+        }
+    }
+}
+
 pub fn run(tier: Tier) -> BResult {
     let kinds = [Kind::Pipe, Kind::Stream, Kind::Dgram];
     let bursts: Vec<usize> = if tier == Tier::Quick { vec![0, 1, 2, 3, 4] } else { (0..=8).collect() };
@@ -393,17 +477,47 @@ pub fn run(tier: Tier) -> BResult {
             violations.push(BViolation { message: format!("C13: {}: {}", case, m), case });
         }
     }
+    // schedules (engine A)
+    let mut a_states = 0u64;
+    let mut a_trans = 0u64;
+    let mut a_execs = 0u64;
+    let mut a_caps = Vec::new();
+    for (name, handle_first) in [("owners_go_away_vs_deliveries", false), ("owners_go_away_handle_first_vs_deliveries", true)] {
+        let sc = sched_part::build(name, handle_first);
+        let cfg = crate::explore::Config { property: "C13".into(), bound: Some(if tier == Tier::Quick { 2 } else { 3 }), max_wall: Duration::from_secs(if tier == Tier::Quick { 25 } else { 600 }), workers: crate::props::workers_for(3), hang_secs: 30 };
+        match crate::explore::explore(&sc, &cfg) {
+            Ok(sum) => {
+                eprintln!("[C13] schedules {:<44} bound={:?} execs={} states={} steps={} distinct={}{}", name, cfg.bound, sum.stats.executions, sum.stats.states, sum.stats.transitions, sum.stats.digests.len(), if sum.stats.capped { " CAPPED" } else { "" });
+                a_states += sum.stats.states;
+                a_trans += sum.stats.transitions;
+                a_execs += sum.stats.executions;
+                if sum.stats.capped {
+                    a_caps.push(json!({"scenario": name, "cap": "wall-clock"}));
+                }
+                *classes.entry(format!("schedules:{}", name)).or_insert(0) += sum.stats.executions;
+                for v in sum.violations {
+                    let cl = crate::explore::class_of(&v.message);
+                    if cl == "engine" {
+                        violations.push(BViolation { message: format!("engine: {}", v.message), case: json!({"scenario": name}) });
+                    } else if cl == "C13" || cl == "crash" || cl == "hung" {
+                        violations.push(BViolation { message: format!("{} [schedule replay: {}]", v.message, v.replay), case: json!({"scenario": name, "engine": "sigsched", "choices": v.choices}) });
+                    }
+                }
+            }
+            Err(er) => violations.push(BViolation { message: format!("engine: {}", er), case: json!({"scenario": name}) }),
+        }
+    }
     BResult {
-        states: cells.len() as u64,
-        transitions,
-        evaluations: cells.len() as u64,
+        states: cells.len() as u64 + a_states,
+        transitions: transitions + a_trans,
+        evaluations: cells.len() as u64 + a_execs,
         distinct: distinct.len() as u64,
         samples,
         per_class: json!(classes),
         violations,
-        exhaustive: true,
-        caps: vec![],
-        rule: format!("complete grid descriptor kind {{pipe, unix stream, unix datagram}} x fill level {{empty, nearly full, completely full}} x burst {:?} x entry {{register_raw, register}} + 5 ownership histories per kind (register/deliver/unregister; rejected: forbidden, OS-refused, fd -1, closed number; then a sentinel on the freed number while the library keeps being used); each cell in a forked child with a watchdog", bursts),
+        exhaustive: a_caps.is_empty(),
+        caps: a_caps,
+        rule: format!("schedules: the action of a registered pipe is removed and an iterator instance and its last handle are dropped (both orders) while the signal is delivered from another thread and nested at every operation boundary of the teardown - every wake attempt must hit an open descriptor, and none happens once the owners are gone; every choice vector within the deviation bound on the real code; grid: complete grid descriptor kind {{pipe, unix stream, unix datagram}} x fill level {{empty, nearly full, completely full}} x burst {:?} x entry {{register_raw, register}} + 5 ownership histories per kind (register/deliver/unregister; rejected: forbidden, OS-refused, fd -1, closed number; then a sentinel on the freed number while the library keeps being used); each cell in a forked child with a watchdog", bursts),
         assumptions: vec!["wake attempts are counted through the cfg(sighook_verif) scheduling point in pipe::wake".into(), "pipe capacity reduced to one page with F_SETPIPE_SZ".into()],
     }
 }
